@@ -174,6 +174,37 @@ Lemma leaf_tables_nonempty :
   /\ (300 <=? length src_leaf_array_start)%nat = true /\ (200 <=? length src_leaf_array_continue)%nat = true.
 Proof. vm_compute. repeat split; reflexivity. Qed.
 
+
+(* ---------------------------------------------------------------- parser: the string scanner, executed *)
+(* SmallString::parse_in -- the loop with its pending-high-surrogate state, the escapes, the three surrogate tests, the
+   lenient options -- is RUN by the translator under the four option records (first item of an input word: bit 1 =
+   accept_truncated_surrogate_pair, bit 2 = accept_invalid_codepoints) on strings built from surrogate escapes, other
+   escapes and raw characters in every arrangement of up to two (three, four for surrogates) elements, terminated and not,
+   with failing source items.  Outcome: Ok -> [0; index; position; n; c1 .. cn] ++ code map; errors -> [1; p; c], [5; p],
+   [6; s; e; high] MissingLowSurrogate, [7; s; e; cp] InvalidUnicodeCodePoint, [8; s; e; high; cp] InvalidLowSurrogate. *)
+Definition ct_opts (n : N) : opts := {| trunc := N.odd n; inval := N.odd (n / 2) |}.
+Definition ct_string_outcome (r : res (list N * N)) : list N :=
+  match r with
+  | Ok ((s, i), st) => [0; i; pos st; N.of_nat (length s)] ++ s ++ ct_flat (cm st)
+  | Err (EUnexpected p c) => [1; p; match c with Some c => c + 1 | None => 0 end]
+  | Err (EStream p) => [5; p]
+  | Err (EMissingLow s e hi) => [6; s; e; hi]
+  | Err (EInvalidCodePoint s e cp) => [7; s; e; cp]
+  | Err (EInvalidLow s e hi cp) => [8; s; e; hi; cp]
+  | Err (EInvalidUtf8 _) => [2]
+  | Panic _ => [3]
+  | OutOfFuel => [4]
+  end.
+Definition ct_string_on (table : list (list N * list N)) : list (list N * list N) :=
+  map (fun w => (w, match w with
+                    | o :: cs => ct_string_outcome (parse_string (ct_opts o) (ct_state cs))
+                    | [] => []
+                    end)) (map fst table).
+Theorem tie_leaf_string : src_leaf_string = ct_string_on src_leaf_string.
+Proof. vm_compute. reflexivity. Qed.
+Lemma leaf_string_nonempty : (2000 <=? length src_leaf_string)%nat = true.
+Proof. vm_compute. reflexivity. Qed.
+
 (* ---------------------------------------------------------------- printer: presets *)
 
 Definition cval_of_indent (i : indent) : cval :=
@@ -349,6 +380,10 @@ Proof.
           (conj tie_leaf_array_continue leaf_tables_nonempty))))).
 Qed.
 
+Theorem string_scanner_from_source :
+  src_leaf_string = ct_string_on src_leaf_string /\ (2000 <=? length src_leaf_string)%nat = true.
+Proof. exact (conj tie_leaf_string leaf_string_nonempty). Qed.
+
 Theorem control_from_source :
   src_is_control = set_of Parser.is_control char_domain /\ (forall c, 256 <= c -> Parser.is_control c = false).
 Proof. exact (conj tie_is_control is_control_above). Qed.
@@ -410,6 +445,7 @@ Print Assumptions tie_is_whitespace.
 Print Assumptions follows_from_source.
 Print Assumptions number_automaton_from_source.
 Print Assumptions leaf_parsers_from_source.
+Print Assumptions string_scanner_from_source.
 Print Assumptions parser_escapes_from_source.
 Print Assumptions surrogate_pair_from_source.
 Print Assumptions presets_from_source.
